@@ -2,7 +2,6 @@ package keeper
 
 import (
 	"context"
-	"time"
 
 	"github.com/SaoNetwork/sao-did/parser"
 	"github.com/SaoNetwork/sao/x/did/types"
@@ -24,7 +23,7 @@ func (k msgServer) Update(goCtx context.Context, msg *types.MsgUpdate) (*types.M
 		return nil, err
 	}
 
-	now := time.Now().Unix()
+	now := ctx.BlockTime().Unix()
 	if msg.Timestamp+EXPIRE_DURATION < uint64(now) {
 		logger.Error("timestamp is too old", "proof.Timestamp", msg.Timestamp, "now", now)
 		return nil, types.ErrOutOfDate
